@@ -53,6 +53,8 @@ impl BitmapStore {
             //         the bytes are not 8 byte aligned.
             // The optimizer can see through this, and avoid the double copy to copy directly into
             // the allocated box from bytes with memcpy
+            #[cfg(roaring_verif)]
+            crate::verif_hooks::site(10, BITMAP_BYTES - 1, bytes.len());
             let bytes_as_words =
                 unsafe { bytes.as_ptr().cast::<[u64; BITMAP_LENGTH]>().read_unaligned() };
             Box::new(bytes_as_words)
@@ -60,6 +62,8 @@ impl BitmapStore {
             let mut bits = Box::new([0u64; BITMAP_LENGTH]);
             // Safety: It's safe to reinterpret u64s as u8s because u8 has less alignment requirements,
             // and has no padding/uninitialized data.
+            #[cfg(roaring_verif)]
+            crate::verif_hooks::site(11, BITMAP_BYTES - 1, core::mem::size_of_val(&*bits));
             let dst = unsafe {
                 core::slice::from_raw_parts_mut(bits.as_mut_ptr().cast::<u8>(), BITMAP_BYTES)
             };
@@ -485,6 +489,8 @@ impl<B: Borrow<[u64; BITMAP_LENGTH]>> BitmapIter<B> {
                 // Match arms can be reordered, this ordering is perf sensitive
                 if cmp == Ordering::Less {
                     // new_key is > self.key, < self.key_back, so it must be in bounds
+                    #[cfg(roaring_verif)]
+                    crate::verif_hooks::site(12, new_key as usize, BITMAP_LENGTH);
                     unsafe { *bits.get_unchecked(new_key as usize) }
                 } else if cmp == Ordering::Equal {
                     self.value_back
@@ -520,6 +526,8 @@ impl<B: Borrow<[u64; BITMAP_LENGTH]>> BitmapIter<B> {
                 // Match arms can be reordered, this ordering is perf sensitive
                 if cmp == Ordering::Greater {
                     // new_key is > self.key, < self.key_back, so it must be in bounds
+                    #[cfg(roaring_verif)]
+                    crate::verif_hooks::site(13, new_key as usize, BITMAP_LENGTH);
                     let value = unsafe { *bits.get_unchecked(new_key as usize) };
                     (value, &mut self.value_back)
                 } else if cmp == Ordering::Equal {
@@ -547,6 +555,8 @@ impl<B: Borrow<[u64; BITMAP_LENGTH]>> Iterator for BitmapIter<B> {
                     return None;
                 }
                 for key in self.key + 1..self.key_back {
+                    #[cfg(roaring_verif)]
+                    crate::verif_hooks::site(14, key as usize, BITMAP_LENGTH);
                     self.value = unsafe { *self.bits.borrow().get_unchecked(key as usize) };
                     if self.value != 0 {
                         self.key = key;
@@ -594,6 +604,8 @@ impl<B: Borrow<[u64; BITMAP_LENGTH]>> DoubleEndedIterator for BitmapIter<B> {
                     return None;
                 }
                 self.key_back -= 1;
+                #[cfg(roaring_verif)]
+                crate::verif_hooks::site(15, self.key_back as usize, BITMAP_LENGTH);
                 self.value_back =
                     unsafe { *self.bits.borrow().get_unchecked(self.key_back as usize) };
                 continue;
